@@ -48,7 +48,7 @@ CHECKS["C10"] = {
             "between save and restore leaves cursor and save stack unchanged: no cumulative register limit), addDedup_sound/index_stable (16-bit constant indices never wrap, stay valid) are Lean theorems over all states/op lists; narrowing_reviewed is the obligation over the inventory of narrowing casts "
             "(`as u8`, `as u16`, `as JumpTarget`, ...) re-extracted from src/compiler/*.rs on every run, with multiplicity: a new cast breaks the build until reviewed. "
             "The model is compared op by op with the real allocator and constant pool (incl. >65535 constants); whole-program size sweeps (16 construct families, n = 0..600 dense at 2^7/2^8, cumulative families to 3000+, "
-            "constant families around 2^16) must give the closed-form value or an explicit limit error, with a canary variable. Over M-Compile: codeE_isSome_iff / program_refused_iff (a statement is refused exactly when its register demand exceeds 255), codeE_regs / program_registers_in_file (no instruction names a register outside the chunk's register file); the allocator theorems' precondition (a register is freed once, by its holder) is observed by a cfg(tsrun_verif) hook while the real compiler compiles ~850 whole programs per run.",
+            "constant families around 2^16) must give the closed-form value or an explicit limit error, with a canary variable. Over M-Compile: codeE_isSome_iff / program_refused_iff (a statement is refused exactly when its register demand exceeds 255), codeE_regs / program_registers_in_file (no instruction names a register outside the chunk's register file); the allocator theorems' precondition (a register is freed once, by its holder) is observed by a cfg(tsrun_verif) hook while the real compiler compiles ~850 whole programs per run. The cumulative families (many small statements that each reserve a register window) are repeated as the body of 11 kinds of code block: function, method, constructor, derived constructor, arrow, getter, static block, generator, loop block, catch body, namespace.",
     "note": "Read from the source, not proved: that the compiler requests windows only through reserve_registers_for and brackets every statement with save/restore. Known finding: the constant-pool limit is per chunk (cumulative over statements).",
     "design_ref": "DESIGN.md §4 C10",
 }
@@ -89,7 +89,7 @@ CHECKS["C14"] = {
     "text": "inv_step/inv_run (env_guards always equals open scopes + call frames, for every sequence of push/pop scope, call, return from any depth, break/continue/finally unwinding, frame unwinding and uncaught errors), "
             "roots_balanced/uncaught_balanced/repeat_constant (a finished or failed run leaves the guard stack at its starting height, however often it is repeated) and collect_frees_unreachable (every slot no live guard reaches, cycles included, is reclaimed) are Lean theorems. "
             "The invariant is evaluated, through the Lean definition, on the real interpreter's state after every step of generated programs; each program (also ones ending in an uncaught error at a random depth) is run 8 times on one interpreter "
-            "under several GC thresholds and host-forced collections, and the live-object count after collect() must stay constant and the run bookkeeping must be back at rest.",
+            "under several GC thresholds and host-forced collections, and the live-object count after collect() must stay constant and the run bookkeeping must be back at rest. Large peaks (6000-30000 objects live at once, then dropped; cycles; ending in a throw) are repeated 8 times at the default threshold.",
     "note": "Which objects the interpreter keeps reachable through root_guard and register guards is observed over repetitions, not modelled; programs outside the generator's grammar are not covered.",
     "design_ref": "DESIGN.md §4 C14",
 }
@@ -104,11 +104,11 @@ CHECKS["C11"] = {
     "design_ref": "DESIGN.md §4 C11",
 }
 CHECKS["C02"] = {
-    "technique": "Lean 4 proof over M-Heap (a collection is the identity on the reachable sub-graph; idempotent) + schedule-differential runs of template and generated programs over 11 collection schedules",
+    "technique": "Lean 4 proof over M-Heap (a collection is the identity on the reachable sub-graph; idempotent) and M-Reset (a reused slot equals a fresh object whatever the dead object held; the field tables are regenerated from src/value.rs on every run) + schedule-differential runs of template and generated programs over 11 collection schedules",
     "text": "collect_reach_iff (a collection changes no reachability), collect_invisible (contents and edges of every reachable object are untouched), collect_roots, collect_idempotent and gc_transparent_step "
             "(an operation gives the same reachable contents whether or not a collection ran just before it) are Lean theorems over the model tied to src/gc.rs by C13. That interpreter and natives keep what they use rooted is searched "
             "for violations: 25 template programs targeting natives that allocate while holding inputs, allocating callbacks/getters/proxy traps, generators, pending promises with both reactions, async functions, closures, "
-            "collections, iterables, plus generated programs and order/host-promise scripts run with collection disabled, at the default threshold, thresholds 1/2/3/5/7/100 and host collect() after every 1/7/50 steps; every schedule must give the outcome of the collection-free run. Since the fourth session: 26 natives that call back per element x 6 ways in which the callback shrinks or overwrites the SOURCE array, under every collection schedule (found Array.from / Map.groupBy / Object.groupBy holding unrooted copies of the elements; repaired).",
+            "collections, iterables, plus generated programs and order/host-promise scripts run with collection disabled, at the default threshold, thresholds 1/2/3/5/7/100 and host collect() after every 1/7/50 steps; every schedule must give the outcome of the collection-free run. Since the fourth session: 26 natives that call back per element x 6 ways in which the callback shrinks or overwrites the SOURCE array, under every collection schedule (found Array.from / Map.groupBy / Object.groupBy holding unrooted copies of the elements; repaired). M-Reset: a swept slot is reused, so Gen/ResetFields.lean (regenerated from value.rs on every run: fields of JsObject, impl Reset, JsObject::new()) carries the obligation reset_is_fresh, lifted by reset_forgets / reset_history_invisible to every state the dead object may have been left in; slot-history programs (21 kinds of objects left sealed / frozen / non-extensible / exotic / with null or own prototypes x 3 kinds of fresh objects) look for a concrete leak under every collection schedule.",
     "note": "Root discipline of the ~400 natives is not proved, only exercised; a premature reclamation is visible only if the object is used afterwards in a way that changes value, console text or error class. No stale-handle monitor (hook H1 of the design) was built.",
     "design_ref": "DESIGN.md §4 C02",
 }
@@ -126,7 +126,7 @@ CHECKS["C12"] = {
     "text": "product_isolation (in every interleaving of two instances each instance's outputs and final state are those of its solo run), map_addr_invariant (results of any insert/get/remove/contains sequence on an address-keyed table "
             "are invariant under every injective re-assignment of addresses) are Lean theorems; globals_allowed / iterations_allowed are obligations over Gen/Globals.lean, which bin/extract regenerates from the Rust sources on every run "
             "(statics, thread-locals, global cells/atomics; iterations over VarKey/Gc/callback-id keyed tables) - a new global or a new address-ordered iteration breaks the build. Groups of generated programs are run solo, after other instance lifetimes, "
-            "one thread each and interleaved step-by-step under random schedules, every variant in two processes; transcripts with the step index of every event must be identical; several top-level tasks on one interpreter woken by one host action must resume in the same order everywhere.",
+            "one thread each and interleaved step-by-step under random schedules, every variant in two processes; transcripts with the step index of every event must be identical; several top-level tasks on one interpreter woken by one host action must resume in the same order everywhere. A recursion-limit probe (10 native-callback shapes x 6 lead-in depths: the depth reached before the RangeError) runs in 12 (thorough: 48) fresh processes whose environments differ in size, on the main thread and on spawned threads; all outputs must be equal.",
     "note": "The inventory is syntactic (regex-level reader); determinism of seedless FxHash iteration over counter-keyed tables is exercised, not proved; time/random providers are not read by the generated programs.",
     "design_ref": "DESIGN.md §4 C12",
 }
@@ -137,7 +137,7 @@ CHECKS["C06"] = {
             "alloc_guarded/huge_refused (every size above the limit is refused before allocation, for every n) are Lean theorems; step_unbounded_with_reentrant_native proves the negative part (a re-entrant native makes one step as long as its callback). "
             "reentrant_allowed is an obligation over Gen/Reentrant.lean which bin/extract regenerates from the Rust sources (every native that calls back into the interpreter) - a new re-entrant native breaks the build until reviewed. "
             "Generated trampolined programs are stepped with the cfg(tsrun_verif) counters (exactly 1 instruction per step, re-entry depth 0, step/depth budgets stop loops); recursion through 42 call paths and 28 size-taking built-ins x 21 sizes up to 2^53 "
-            "run one process each and must end in a value or a catchable error. Over M-Compile (C01's compiler/VM model): codeE_targets / codeS_targets (every jump and catch target the compiler emits lies inside the construct's own code) and compiled_never_faults (for every statement, every run - terminating or not - keeps the program counter and the try stack inside the code: no step faults). A family of 85 programs in which an accessor / toJSON / iterator / trap WRITES to the object the native is reading.",
+            "run one process each and must end in a value or a catchable error. Over M-Compile (C01's compiler/VM model): codeE_targets / codeS_targets (every jump and catch target the compiler emits lies inside the construct's own code) and compiled_never_faults (for every statement, every run - terminating or not - keeps the program counter and the try stack inside the code: no step faults). A family of 85 programs in which an accessor / toJSON / iterator / trap WRITES to the object the native is reading. Cyclic values (self-containing arrays, two-array cycles, objects whose toString re-enters) go through 58 routes that turn a value into a string or number (receivers and arguments of String built-ins, operators, property keys): each must return or throw a catchable error.",
     "note": "Known finding: a callback run by a re-entrant native (Array.prototype.map, getters, Proxy traps, ... - the extracted list) executes inside ONE step, so a looping callback is not bounded by step counting. "
             "Not counted: time spent in a garbage collection triggered by a step; Rust stack use per native frame is bounded by a 1 MB budget measured by stack addresses, not proved.",
     "design_ref": "DESIGN.md §4 C06",
